@@ -5,6 +5,7 @@ package xpath
 // XPath 1.0 answer. Used to confirm fix: commits and as replay support.
 
 import (
+	"sort"
 	"strconv"
 	"fmt"
 	"time"
@@ -1472,5 +1473,135 @@ func TestProbe_damage(t *testing.T) {
 	}
 	for _, s := range []string{"a and", "a or", "a div", "a mod", "a <", "a !=", "a >=", "a/b/", "a//", "a[", "f(", "count(//a", "nosuchfunction(a)", "count()", "substring(a)", "contains(a)", "concat(a)", "not()", "nosuchaxis::a", "child::", "a:", ":a", "a::b", "p:", "starts-with('a')", "translate(a,b)", "p::a", "q:a"} {
 		mustFail(s, "ill-formed")
+	}
+}
+
+func TestProbe_syntax(t *testing.T) {
+	root := wdoc(`<r><a x="1" y="2"><b i="1">4<g/>t</b><c/></a><d z="3"/><b i="5">7</b><a><b i="2"/><b w="1" i="3"/></a><a/></r>`)
+	render := func(ex string) string {
+		e, err := Compile(ex)
+		if err != nil {
+			return "error: " + err.Error()
+		}
+		var out string
+		func() {
+			defer func() {
+				if r := recover(); r != nil {
+					out = fmt.Sprint("panic: ", r)
+				}
+			}()
+			v := e.Evaluate(&TNodeNavigator{curr: root.FirstChild, root: root, attr: -1})
+			if it, ok := v.(*NodeIterator); ok {
+				set := map[string]bool{}
+				for k := 0; it.MoveNext() && k < 1000; k++ {
+					cur := it.Current().(*TNodeNavigator)
+					set[fmt.Sprintf("%p/%d", cur.curr, cur.attr)] = true
+				}
+				var keys []string
+				for k := range set {
+					keys = append(keys, k)
+				}
+				sort.Strings(keys)
+				out = strings.Join(keys, " ")
+			} else {
+				out = fmt.Sprint(v)
+			}
+		}()
+		return out
+	}
+	pairs := [][2]string{
+		{"1 or 0 and 0", "1 or (0 and 0)"}, {"0 and 0 or 1", "(0 and 0) or 1"}, {"1 = 1 and 2 = 3", "(1 = 1) and (2 = 3)"}, {"1 < 2 = 1 < 2", "(1 < 2) = (1 < 2)"}, {"3 > 2 > 1", "(3 > 2) > 1"},
+		{"1 + 2 < 2 + 2", "(1 + 2) < (2 + 2)"}, {"1 + 2 * 3", "1 + (2 * 3)"}, {"10 - 4 - 3", "(10 - 4) - 3"}, {"100 div 10 div 5", "(100 div 10) div 5"}, {"7 mod 4 * 2", "(7 mod 4) * 2"}, {"2 * 3 mod 4", "(2 * 3) mod 4"},
+		{"- 2 * 3", "(-2) * 3"}, {"1 - - 2", "1 - (-2)"}, {"-a/b", "-(a/b)"}, {"a | b/c", "a | (b/c)"}, {"count(a | b | d)", "count((a | b) | d)"}, {"a/b | d", "(a/b) | d"}, {"1 = 2 != 1", "(1 = 2) != 1"}, {"1 != 2 = 1", "(1 != 2) = 1"},
+		{"2 * -1", "2 * (-1)"}, {"8 div 2 * 4", "(8 div 2) * 4"}, {"1 < 2 < 3 < 0", "((1 < 2) < 3) < 0"}, {"6 - 3 + 2", "(6 - 3) + 2"}, {"b/@i > 1 and b/@i < 5 or c", "((b/@i > 1) and (b/@i < 5)) or c"},
+		// abbreviations
+		{"a", "child::a"}, {"@x", "attribute::x"}, {".", "self::node()"}, {"..", "parent::node()"}, {"a//b", "a/descendant-or-self::node()/child::b"}, {"//b", "/descendant-or-self::node()/child::b"}, {".//b", "self::node()/descendant-or-self::node()/child::b"}, {"../a", "parent::node()/child::a"}, {"a/@x", "child::a/attribute::x"}, {"*", "child::*"}, {"@*", "attribute::*"}, {"a[1]", "child::a[position()=1]"}, {"text()", "child::text()"}, {"a/..", "child::a/parent::node()"}, {"//@i", "/descendant-or-self::node()/attribute::i"},
+	}
+	for _, p := range pairs {
+		if a, b := render(p[0]), render(p[1]); a != b {
+			t.Errorf("%q gives %q but %q gives %q", p[0], a, p[1], b)
+		}
+	}
+	// optional whitespace
+	toks := [][]string{
+		{"a", "/", "b", "[", "@i", ">", "1", "]"}, {"count", "(", "//", "b", ")", "+", "1"}, {"a", "|", "d", "|", "b"}, {"//", "b", "[", "position", "(", ")", "=", "last", "(", ")", "]"}, {"child", "::", "a", "/", "attribute", "::", "x"},
+		{"concat", "(", "'a b'", ",", "\" c\"", ",", "string", "(", "@x", ")", ")"}, {"-", "1", "+", "2"}, {"a", "[", "b", "]", "[", "1", "]"}, {"1", "<=", "2", "and", "3", ">=", "2", "or", "0", "!=", "0"}, {"..", "/", "a", "//", "b"}, {"(", "a", "|", "b", ")", "[", "2", "]"}, {"2", "*", "3", "div", "4", "mod", "5"}, {"b", "/", "@i", "=", "'1'"}, {"a", "/", "*", "[", "1", "]"}, {"4", "div", "2"},
+	}
+	needsSpace := func(x, y string) bool {
+		word := func(s string) bool {
+			c := s[len(s)-1]
+			return c >= 'a' && c <= 'z' || c >= '0' && c <= '9' || c == '*' || c == '.'
+		}
+		first := y[0]
+		return word(x) && (first >= 'a' && first <= 'z' || first >= '0' && first <= '9' || first == '.' || first == '*' || first == '-') || x == "-" && y == "-"
+	}
+	for _, tk := range toks {
+		var tight, loose strings.Builder
+		for i, x := range tk {
+			if i > 0 && needsSpace(tk[i-1], x) {
+				tight.WriteByte(' ')
+			}
+			tight.WriteString(x)
+			loose.WriteString(" \t\n\r ")
+			loose.WriteString(x)
+		}
+		loose.WriteString("  ")
+		if a, b := render(tight.String()), render(loose.String()); a != b || strings.HasPrefix(a, "error") {
+			t.Errorf("%q gives %q, %q gives %q", tight.String(), a, loose.String(), b)
+		}
+	}
+}
+
+func TestProbe_names(t *testing.T) {
+	root := createNode("", RootNode)
+	r := root.createChildNode("r", ElementNode)
+	a := r.createChildNode("a", ElementNode)
+	a.Prefix, a.NamespaceURL = "p", "urn:one"
+	a2 := r.createChildNode("a", ElementNode)
+	a2.Prefix, a2.NamespaceURL = "q", "urn:two"
+	a3 := r.createChildNode("a", ElementNode)
+	b := r.createChildNode("b", ElementNode)
+	b.Prefix, b.NamespaceURL = "p", "urn:one"
+	r.createChildNode("text", TextNode)
+	r.createChildNode("cmt", CommentNode)
+	a3.addAttribute("x", "1")
+	ns := map[string]string{"n1": "urn:one", "n2": "urn:two", "p": "urn:two"}
+	count := func(ex string) float64 {
+		e, err := CompileWithNS("count("+ex+")", ns)
+		if err != nil {
+			t.Fatalf("%s: %v", ex, err)
+		}
+		v, _ := e.Evaluate(&TNodeNavigator{curr: root, root: root, attr: -1}).(float64)
+		return v
+	}
+	for ex, want := range map[string]float64{
+		"/r/a": 1, "/r/*": 4, "/r/n1:a": 1, "/r/n2:a": 1, "/r/p:a": 1, "/r/n1:*": 2, "/r/n2:*": 1, "/r/node()": 6, "/r/text()": 1, "/r/comment()": 1, "/r/b": 0, "/r/n1:b": 1, "/r/n2:b": 0, "/r/a/@x": 1, "/r/a/@*": 1, "/r/a/@n1:x": 0, "//*": 5, "/r/self::r": 1, "/r/self::n1:r": 0, "/r/a[@x]": 1, "/r/n1:*[1]": 1, "/r/*[n1:* or 1]": 4,
+	} {
+		if got := count(ex); got != want {
+			t.Errorf("count(%s) = %v, want %v", ex, got, want)
+		}
+	}
+	str := func(ex string, ctx *TNode, attr int) interface{} {
+		e, err := CompileWithNS(ex, ns)
+		if err != nil {
+			t.Fatalf("%s: %v", ex, err)
+		}
+		return e.Evaluate(&TNodeNavigator{curr: ctx, root: root, attr: attr})
+	}
+	for _, c := range []struct {
+		ex   string
+		n    *TNode
+		attr int
+		want string
+	}{
+		{"name()", a, -1, "p:a"}, {"local-name()", a, -1, "a"}, {"namespace-uri()", a, -1, "urn:one"}, {"name()", a3, -1, "a"}, {"namespace-uri()", a3, -1, ""}, {"name()", a3, 0, "x"}, {"local-name()", a3, 0, "x"},
+		{"name(/r/*[2])", root, -1, "q:a"}, {"local-name(/r/*[4])", root, -1, "b"}, {"namespace-uri(/r/*[4])", root, -1, "urn:one"}, {"name(/r/zz)", root, -1, ""}, {"local-name(/r/zz)", root, -1, ""}, {"namespace-uri(/r/zz)", root, -1, ""}, {"name(/r/*)", root, -1, "p:a"}, {"name(/r/a/@x)", root, -1, "x"},
+	} {
+		if got := str(c.ex, c.n, c.attr); got != interface{}(c.want) {
+			t.Errorf("%s at %s/%d: got %v want %q", c.ex, c.n.Data, c.attr, got, c.want)
+		}
+	}
+	if _, err := CompileWithNS("/r/zz:a", ns); err == nil {
+		t.Errorf("unbound prefix zz accepted")
 	}
 }
